@@ -39,6 +39,10 @@ def run(ctx):
         S("flatset", "TC4", "coarse", "fixed8", reloc=r, opts=so),
         S("smallset", "TC4", "less", back="flatset", N=2, reloc=r, opts=so),
         S("smallset", "TR", "less", back="flatset", N=3, keys=5, reloc=r, opts=so),
+        # a comparator with state that is itself relocatable (trivially copyable): the set claims, and whatever the set
+        # keeps beside the vector (cached functors, pointers to its own comparator) must survive the memcpy
+        S("flatset", "TC4", "stateful", "amcvector", reloc=r, opts=so),
+        S("smallset", "TC4", "stateful", back="flatset", N=2, reloc=r, opts=so),
         S("smallset", "TC4", "less", back="stdset", N=2, reloc=r, opts=so),      # must NOT claim
         S("flatset", "NTR", "less", "smallvector2", reloc=r, opts=so),           # must NOT claim
         S("flatset", "TC4", "less", "stdvector", reloc=r, opts=so),              # must NOT claim
